@@ -3,6 +3,7 @@
 // the *rendering* (case of names, OWS, chunk pattern, extensions, trailers) at the same time.
 #pragma once
 #include "c15_ref_http.hpp"
+#include <cstdio>
 #include "pbt.hpp"
 
 namespace refhttp
@@ -506,6 +507,123 @@ inline BadLen genHugeChunk(pbt::Src &src, bool request)
   std::string start = request ? "POST /huge HTTP/1.1\r\nHost: h\r\n" : "HTTP/1.1 200 OK\r\n";
   b.wire = start + randCase(src, "Transfer-Encoding") + ": chunked\r\n\r\n" + sz + "\r\n" + "hello\r\n0\r\n\r\n";
   return b;
+}
+
+// ------------------------------------------------------------------ repeated / combined length fields
+/// One message carrying several Content-Length values (separate field lines, comma lists, or both, in drawn
+/// spellings with leading zeros) or Content-Length next to Transfer-Encoding.
+///   mustReject : at least two values differ numerically => invalid length information, never framed.
+///   otherwise  : all values equal the real body length (a recipient MAY accept or reject the repeat), or
+///                Content-Length next to "Transfer-Encoding: chunked" (reject, or frame by chunked - never by
+///                Content-Length). `accepted` lists every acceptable rendering of the message as seen by the application.
+struct LengthCombo
+{
+  std::string kind;
+  std::string wire;              // the complete message
+  bool mustReject = false;
+  std::vector<Expect> accepted;  // !mustReject: acceptable hand-overs (differ only in the Content-Length value kept)
+};
+
+inline LengthCombo genLengthCombo(pbt::Src &src, bool request)
+{
+  using namespace gen;
+  LengthCombo lc;
+  static const std::vector<std::string> bodies = {"", "h", "hello", "hello!!", "0123456789abcdef", "GET / HTTP/1.1\r\n\r\n"};
+  std::string body = src.oneOf(bodies);
+  const std::uint64_t L = body.size();
+  auto spell = [&](std::uint64_t v)
+  {
+    std::string d = std::to_string(v);
+    switch (src.weighted({4, 2, 1}))
+    {
+    case 1: return "0" + d;
+    case 2: return "00" + d;
+    default: return d;
+    }
+  };
+  int mode = (int)src.weighted({6, 3, 2}); // 0 different values, 1 equal values, 2 Content-Length next to Transfer-Encoding
+  std::size_t n = (std::size_t)src.range(2, 3);
+  std::vector<std::uint64_t> vals;
+  if (mode == 0)
+  {
+    std::vector<std::uint64_t> pool = {0, 0, 1, 5, 7, L, L + 1, L ? L - 1 : 2, 9999999, 99999999999ULL};
+    for (std::size_t i = 0; i < n; ++i) vals.push_back(src.oneOf(pool));
+    bool differ = false;
+    for (auto v : vals) differ |= v != vals[0];
+    if (!differ) vals.back() = vals[0] + 1 + (std::uint64_t)src.range(0, 4); // make it a conflict
+    lc.mustReject = true;
+  }
+  else if (mode == 1)
+    vals.assign(n, L);
+  else
+    vals.assign(1, src.oneOf<std::uint64_t>({0, 5, L, L + 1, 7}));
+  // arrangement: each value becomes its own field line or joins the previous one as a list element
+  std::vector<std::string> lines; // Content-Length field values
+  for (std::size_t i = 0; i < vals.size(); ++i)
+  {
+    std::string sp = spell(vals[i]);
+    if (i > 0 && src.coin(1, 3)) lines.back() += (src.coin() ? ", " : ",") + sp;
+    else lines.push_back(sp);
+  }
+  lc.kind = mode == 0 ? "cl-multi-conflict" : mode == 1 ? "cl-multi-equal" : "cl-with-transfer-encoding";
+  if (mode == 0 && vals[0] == 0) lc.kind += "-zero-first";
+  Expect base;
+  std::string start;
+  std::vector<Field> fields;
+  if (request)
+  {
+    base.method = src.coin() ? "POST" : "PUT";
+    base.path = "/len";
+    base.version = "1.1";
+    start = base.method + " /len HTTP/1.1\r\n";
+    fields.push_back(Field{randCase(src, "Host"), "h"});
+  }
+  else
+  {
+    base.status = 200;
+    base.reason = "OK";
+    base.version = "1.1";
+    start = "HTTP/1.1 200 OK\r\n";
+    fields.push_back(Field{randCase(src, "Server"), "s"});
+  }
+  if (src.coin()) fields.push_back(Field{randCase(src, "X-Pad"), src.oneOf(valuePool())});
+  std::size_t clLines = lines.size();
+  for (auto &l : lines) fields.push_back(Field{randCase(src, "Content-Length"), l});
+  if (mode == 2) fields.push_back(Field{randCase(src, "Transfer-Encoding"), "chunked"});
+  // drawn order (the Content-Length lines keep their relative order: "first is zero" must stay first)
+  std::size_t nonCl = fields.size() - clLines - (mode == 2 ? 1 : 0);
+  std::vector<Field> ordered;
+  {
+    std::vector<Field> cl(fields.begin() + (std::ptrdiff_t)nonCl, fields.begin() + (std::ptrdiff_t)(nonCl + clLines));
+    std::vector<Field> other(fields.begin(), fields.begin() + (std::ptrdiff_t)nonCl);
+    if (mode == 2) other.push_back(fields.back());
+    std::size_t oi = 0, ci = 0;
+    while (oi < other.size() || ci < cl.size())
+    {
+      bool takeCl = ci < cl.size() && (oi >= other.size() || src.coin());
+      ordered.push_back(takeCl ? cl[ci++] : other[oi++]);
+    }
+  }
+  lc.wire = start;
+  for (auto &f : ordered) lc.wire += f.name + ":" + owsBefore(src) + f.value + owsAfter(src) + "\r\n";
+  lc.wire += "\r\n";
+  if (mode == 2) lc.wire += (body.empty() ? std::string() : [&] { char b[32]; std::snprintf(b, sizeof b, "%zx", body.size()); return std::string(b) + "\r\n" + body + "\r\n"; }()) + "0\r\n\r\n";
+  else lc.wire += body;
+  if (!lc.mustReject)
+  {
+    // acceptable hand-overs: all other fields as sent, exactly one Content-Length value out of the lines sent
+    for (auto &l : lines)
+    {
+      Expect e = base;
+      e.body = body;
+      e.chunked = mode == 2;
+      for (auto &f : ordered)
+        if (lower(f.name) != "content-length") e.fields.push_back(f);
+      e.fields.push_back(Field{"Content-Length", l});
+      lc.accepted.push_back(e);
+    }
+  }
+  return lc;
 }
 
 } // namespace refhttp
